@@ -15,8 +15,8 @@ import (
 	"strings"
 	"time"
 
-	commonseries "github.com/lindb/common/series"
 	"github.com/lindb/common/proto/gen/v1/flatMetricsV1"
+	commonseries "github.com/lindb/common/series"
 	"github.com/lindb/roaring"
 	"go.uber.org/atomic"
 
@@ -296,6 +296,20 @@ func (e *env) query(ns, name string, cond stmt.Expr, groupBy []string) (res quer
 		res.grouped = shctx.SeriesIDsAfterFiltering.ToArray()
 		return res
 	}
+	e.readGroups(sctx, shctx, groupBy, &res)
+	return res
+}
+
+// readGroups reads the group of every selected series the way shardScanStage.NextStages / DataLoad do
+// (one DataLoadContext per container, GroupingTagsLookup, GroupingSeriesAggRefs) and resolves the
+// value ids through the dictionary (CollectTagValues).
+func (e *env) readGroups(sctx *flow.StorageExecuteContext, shctx *flow.ShardExecuteContext, groupBy []string, out *queryResult) {
+	e.readGroupsInto(sctx, shctx, groupBy, out)
+}
+
+func (e *env) readGroupsInto(sctx *flow.StorageExecuteContext, shctx *flow.ShardExecuteContext, groupBy []string, resp *queryResult) (res queryResult) {
+	res = *resp
+	defer func() { *resp = res }()
 	res.grouped = shctx.SeriesIDsAfterFiltering.ToArray()
 	res.values = map[uint32][]string{}
 	res.valueIDs = map[uint32][]uint32{}
